@@ -62,20 +62,8 @@ def attribute(ops, outs, k):
 
 
 def in_known_class(csv, ops, k):
-    """is step k inside the guard class of a recorded known finding (DESIGN 2.5)?"""
-    def has(q, pred):
-        if q[0] in ("and", "or"):
-            return has(q[1], pred) or has(q[2], pred)
-        if q[0] == "not":
-            return has(q[1], pred)
-        return pred(q)
-    qs = [x for x in (ops[k][1:] if ops[k][0] != "handle" else ops[k][2][1:])
-          if isinstance(x, (tuple, list)) and x and isinstance(x[0], str) and x[0] in ("S", "noop", "and", "or", "not")]
-    for q in qs:
-        if has(q, lambda s: s[0] == "S" and s[1] == "time" and s[2] and s[3][0] == "cmp"):
-            return "F21"
-        if has(q, lambda s: s[0] == "S" and s[1] in ("tags", "fields") and s[2] and s[2][0][0] == "m"):
-            return "F24"
+    """is step k inside the guard class of a recorded known finding (DESIGN 2.5)?  None at present:
+    F21/F24 were repaired in /repo (queries with map() go to the scan), so nothing is excused."""
     return None
 
 
@@ -178,6 +166,36 @@ def run_tie(ck, tf, n_hist, profile, configs=CONFIGS, corpus=()):
                 stats=dict(op_kinds=dict(kinds), error_kinds=dict(errs), db_sizes=dict(sizes)))
 
 
+def direct_oracle(cases):
+    """the documented meaning (pyspec) against the implementation's outputs, step by step, on every history;
+    where the spec is silent (a user callable raised, invalid arguments) the walk resynchronises on the next
+    iteration output.  -> list of (case index, step, spec output), steps checked"""
+    bad, checked = [], 0
+    for ci, (csv, auto, ops, outs) in enumerate(cases):
+        db = []
+        for k, (o, x) in enumerate(zip(ops, outs)):
+            if db is None:
+                if o[0] == "iter" and x[0] == "points":
+                    db = [dict(p) for p in x[1]]
+                continue
+            if o[0] == "index_valid":
+                continue
+            try:
+                db2, want = pyspec.step(db, o)
+            except pyspec.Undefined:
+                db = None
+                continue
+            except Exception:
+                db = None
+                continue
+            checked += 1
+            if not pyspec.same(want, x):
+                bad.append((ci, k, want))
+                break
+            db = db2
+    return bad, checked
+
+
 def nontrivial(case):
     """history contains a write and a query read whose answer is neither empty nor everything"""
     csv, auto, ops, outs = case
@@ -222,6 +240,16 @@ def db_check(pid, tier, seed, profile, n_quick, n_thorough, prop_module, claims_
         ck.violation({"kind": "proof-broken", "what_no_longer_checks": f"{prop_module}.v (theorems {b['theorems']})",
                       "log": b["log"][-2000:], "forbidden": b["forbidden"]}, no_input=True)
     reported = 0
+    spec_bad, spec_checked = direct_oracle(cases)
+    spec_mine = [(ci, k, want) for ci, k, want in spec_bad if attribute(cases[ci][2], cases[ci][3], k) == pid]
+    for ci, k, want in spec_mine[:2]:
+        csv, auto, ops, outs = cases[ci]
+        if (ci, k) in mine:
+            continue
+        ck.violation({"kind": "failing-input", "config": {"csv": csv, "auto_index": auto, "TZ": os.environ.get("TZ", "UTC")},
+                      "ops": ops[:k + 1], "first_differing_step": k, "implementation_output": outs[k], "spec_output": want,
+                      "attributed_to": pid, "origin": res["meta"][ci],
+                      "why": "the implementation's answer differs from the documented meaning (harness/pyspec.py) although it agrees with the Coq model"})
     for ci, k in mine[:3]:
         csv, auto, ops, outs = cases[ci]
         ops = ops[:k + 1]
@@ -260,6 +288,7 @@ def db_check(pid, tier, seed, profile, n_quick, n_thorough, prop_module, claims_
                 "non-trivial = the history contains a write and a search/count whose answer is neither empty nor everything; distinct by op list",
         "traces_validated_against_impl": len(cases) - len({ci for ci, _ in res["divergences"]}),
         "divergences_attributed_here": len(mine), "diverged_elsewhere": dict(elsewhere),
+        "steps_compared_with_documented_meaning": spec_checked, "documented_meaning_mismatches": len(spec_bad),
         "inside_known_finding_class": dict(known_hits),
         "distribution": res["stats"],
         "samples": [{"config": {"csv": c[0], "auto_index": c[1]}, "ops": c[2][:6], "outputs": c[3][:6]} for c in cases[:2]],
